@@ -9,6 +9,20 @@ hook_commits = [l.split()[0] for l in HOOK_COMMITS if "verif" in l.lower() and n
 
 # id -> (engine, technique, level text, level note, design ref)
 CHECKS = {
+    "C11": (
+        "E3",
+        "exhaustive sweep of all ordered same-dimension unit pairs x magnitude alphabet x operand shapes through the real interpreter; symmetry/trichotomy/NaN laws judged on every case",
+        "Every ordered pair of same-dimension standard-library units (all modules loaded) is combined with a 12-value magnitude alphabet (incl. NaN, +-inf, +-0) and with the operand converted into the other unit (the near-equal case); all six relations are evaluated in both orders by the interpreter and the order-independence laws are judged bit-exactly on each case. Complete over the unit axis, alphabet-bounded over magnitudes.",
+        "Trusted: nothing beyond the interpreter producing booleans; magnitudes outside the alphabet are not explored.",
+        "§4 C11",
+    ),
+    "C12": (
+        "E3",
+        "exhaustive sweep of all ordered same-dimension unit pairs x magnitude pairs (+ all 6 orders of 3-operand sums) against a reference built from the units' direct definitions",
+        "Every ordered same-dimension unit pair x magnitude pairs (incl. 0 and negatives) and prefixed operands: a+b, b+a, a-b, -(b-a) are evaluated by the interpreter; raw values (hook) are compared in base units against independent dimensional arithmetic and the displayed texts of both orders must coincide whenever the property's display clause applies. Three-operand sums are checked in all 6 orders.",
+        "Trusted: UnitDefs reference (direct definitions read from the VM, own recursion and prefix table), tolerance 1e-9 relative.",
+        "§4 C12",
+    ),
     "C18": (
         "E1",
         "explicit-state BFS over operation histories of the real NumbatList (lockstep reference Vec), canonical-state deduplication",
